@@ -107,7 +107,7 @@ func H_newset() {
 	_ = provSetT
 	// the set variables are declared in a real file of the package, so that the real objectCache.varDecl
 	// (token.File lookup + astutil.PathEnclosingInterval) finds their declarations
-	setNames := []string{"Base", "SA", "Alias", "Barred"}
+	setNames := []string{"Base", "SA", "Alias", "Barred", "BarOnly"}
 	tf := e.fset.AddFile("sets.go", 10, 1000) // explicit base: e.fset is a zero FileSet whose first base would be NoPos
 	filePos := func(off int) token.Pos { return token.Pos(tf.Base() + off) }
 	setVars := map[string]*types.Var{}
@@ -142,6 +142,7 @@ func H_newset() {
 		10: {label: "SA", expr: varExpr("SA"), isSet: true, setKey: "SA", imports: []int{0}},                  // var SA = wire.NewSet(NewA)
 		11: {label: "Alias", expr: varExpr("Alias"), isSet: true, setKey: "SA", imports: []int{0}},            // var Alias = SA
 		12: {label: "Barred", expr: varExpr("Barred"), isSet: true, setKey: "Barred", imports: []int{6, 8}},   // var Barred = wire.NewSet(NewBar, wire.Bind(new(Fooer), new(*Bar)))
+		13: {label: "BarOnly", expr: varExpr("BarOnly"), isSet: true, setKey: "BarOnly", imports: []int{6}},     // var BarOnly = wire.NewSet(NewBar)
 	}
 	pool = append(pool,
 		nsItem{label: "NewSet(NewA)", isSet: true, imports: []int{0}},
@@ -150,8 +151,9 @@ func H_newset() {
 		nsItem{label: "NewSet(Base)", isSet: true, imports: []int{9}},
 		nsItem{label: "NewSet(Base, Bind(Fooer,*Foo))", isSet: true, imports: []int{9, 7}},
 		nsItem{label: "NewSet(SA, NewB)", isSet: true, imports: []int{10, 2}},
+		nsItem{label: "NewSet(BarOnly, Bind(Fooer,*Bar))", isSet: true, imports: []int{13, 8}},
 	)
-	for i := 13; i < len(pool); i++ {
+	for i := 14; i < len(pool); i++ {
 		pool[i].expr = inline(pool[i].imports...)
 	}
 	// declarations of the set variables: var <Name> = <initializer>, each in its own 100-byte stretch of sets.go
@@ -160,6 +162,7 @@ func H_newset() {
 		"SA":     inline(0),
 		"Alias":  varExpr("SA"),
 		"Barred": inline(6, 8),
+		"BarOnly": inline(6),
 	}
 	file := &ast.File{Package: filePos(0), Name: &ast.Ident{NamePos: filePos(8), Name: "user"}}
 	for k, n := range setNames {
@@ -250,6 +253,18 @@ func H_newset() {
 		return all, ok
 	}
 	all, wantOK := flatten(choice, nil)
+
+	// ---- optionally, another set is analysed first with the same object cache (as happens when a package has
+	// several injectors or set variables): whatever it is, and whether or not it is accepted, it must not
+	// influence the verdict on the call under test (no state shared between the analyses of two sets)
+	if vParam("warm", 0) != 0 {
+		w := vConc(vInt("warm", 8, len(pool)-1))
+		if w >= 9 { // 8 stands for "nothing analysed before"
+			warm := &ast.CallExpr{Fun: e.wireFun("NewSet", false), Args: []ast.Expr{pool[w].expr()}}
+			oc.processExpr(e.info, "example.com/user", warm, "")
+			vNote("analysed before: NewSet(" + pool[w].label + ")")
+		}
+	}
 	// the same provider-set object reached twice provides everything twice: already counted by flatten, since
 	// every occurrence contributes its sources; nothing more to do for aliases (Alias and SA are one object)
 
@@ -281,6 +296,15 @@ func H_newset() {
 		}
 	}
 	vA("C10,C05", len(pset.Imports) == nSets, "every set argument is imported (none dropped, none merged)")
+	provided := make([]bool, nsTypes)
+	for _, s := range all {
+		provided[s.out] = true
+	}
+	for t := 0; t < nsTypes; t++ {
+		if !provided[t] {
+			vA("C06,C11", pset.For(goType[t]).IsNil(), "a set provides nothing beyond its own sources (a type without a source stays missing)")
+		}
+	}
 	for _, s := range all {
 		pt := pset.For(goType[s.out])
 		vA("C10,C05", !pt.IsNil(), "every source of an accepted set is retrievable under its type")
